@@ -165,7 +165,7 @@ class Ctx:
         return True
 
     # ---------------- engine K: Kani proof harnesses compiled from /repo's current tree (cfg(kani) modules)
-    def kani(self_, harness, timeout_s=1800, unwind=None):
+    def run_kani(self_, harness, timeout_s=1800, unwind=None):
         """run one `#[kani::proof]` harness of the crate; returns 'success' | 'failed' | 'inconclusive' (timeout, build trouble, out of memory)"""
         repo = os.environ.get('VERIF_REPO', '/repo')
         root = os.path.join(CACHE, 'kani')
